@@ -64,10 +64,11 @@ def build_shim():
     with build_lock():
         src = os.path.join(VERIF, "shim", "fsshim.c")
         if not os.path.exists(SHIM) or os.path.getmtime(SHIM) < os.path.getmtime(src):
-            r = subprocess.run(["gcc", "-O1", "-shared", "-fPIC", "-o", SHIM, src, "-ldl", "-lpthread"],
+            r = subprocess.run(["gcc", "-O1", "-shared", "-fPIC", "-o", SHIM + ".tmp", src, "-ldl", "-lpthread"],
                                capture_output=True, text=True)
             if r.returncode != 0:
                 raise ToolError("shim build failed:\n" + r.stderr)
+            os.replace(SHIM + ".tmp", SHIM)        # atomic: processes that have the old library mapped keep it
     return SHIM
 
 
